@@ -427,7 +427,13 @@ func experimenter(c *C, n *N) {
 			c.U(e, "Flags", 2)
 			// one complete OpenFlow message, delimited by its own header length
 			if c.Enc {
+				at := len(c.buf)
 				c.Sub(e, "Message", Message)
+				if len(e.L["Properties"]) > 0 {
+					// "if there is one property or more, 'message' is followed by exactly
+					// (message.length + 7)/8*8 - message.length bytes of all-zero bytes"
+					c.Pad((8 - (len(c.buf)-at)%8) % 8)
+				}
 			} else {
 				c.need(8, "embedded message header")
 				l := int(c.buf[c.pos+2])<<8 | int(c.buf[c.pos+3])
@@ -438,6 +444,9 @@ func experimenter(c *C, n *N) {
 				c.end = c.pos + l
 				c.Sub(e, "Message", Message)
 				c.end = save
+				if c.pos < c.end {
+					c.Pad((8 - l%8) % 8)
+				}
 			}
 			c.List(e, "Properties", bundleProp)
 		})
